@@ -129,6 +129,13 @@ func (x *Exec) appendCall(e *ast.CallExpr, st *State) Val {
 		n = IntLit(int64(len(elems)))
 	}
 	hn, h := x.elemHeapOf(st, ty.Elem)
+	if s.T.Op != "mk_slice" && len(s.T.String()) > 30 {
+		// a slice read from the heap (e.g. df[i]): name it, the header is
+		// mentioned many times below
+		nm := x.sym.Fresh("appbase", SSlice)
+		st.assume(Eq(nm, s.T))
+		s.T = nm
+	}
 	oldLen, oldCap, oldOff, oldReg := slLen(s.T), slCap(s.T), slOff(s.T), slReg(s.T)
 	newLen := Add(oldLen, n)
 	fits := Le(newLen, oldCap)
@@ -166,6 +173,11 @@ func (x *Exec) appendCall(e *ast.CallExpr, st *State) Val {
 	// appended; direct that no-op write to the unused fresh region so that
 	// region 0 is never written.
 	regW := Ite(And(fits, Eq(oldReg, IntLit(0))), freshReg, reg)
+	if len(regW.String()) > 120 {
+		nm := x.sym.Fresh("appreg", SInt)
+		st.assume(Eq(nm, regW))
+		regW = nm
+	}
 	x.recordWrite(st, hn, regW, nil, nil, nil, e)
 	st.heaps[hn] = Store(h, regW, na)
 	// appending nothing to nil yields nil
